@@ -282,6 +282,14 @@ pub struct Plan {
     pub reached: BTreeMap<usize, usize>,
 }
 
+/// Which semantic oracle a plan carries.
+#[derive(Clone, Copy, PartialEq)]
+pub enum Sem {
+    None,
+    C17,
+    C18,
+}
+
 struct Builder<'a> {
     events: Vec<Ev>,
     disk: Files,
@@ -374,13 +382,19 @@ pub fn c15_gen_cfg(rng: &mut Rng) -> GenCfg {
 }
 
 /// Builds the history plan of run (seed, prop, run).
-pub fn plan(seed: u64, prop: &str, run: u64, semantic: bool) -> Plan {
+pub fn plan(seed: u64, prop: &str, run: u64, sem: Sem) -> Plan {
+    let semantic = sem != Sem::None;
+    let mut sem_targets: Vec<crate::sem::SemTarget> = Vec::new();
     let mut wl = Rng::stream(seed, prop, run, "workload");
     let mut sched = Rng::stream(seed, prop, run, "schedule");
     let mut env = Rng::stream(seed, prop, run, "env");
     let mut sw = swarm(&mut sched);
     if semantic {
+        // Semantic oracles need the history to arrive at accepted generator programs.
         sw.folder_events = false;
+        sw.rename_loops = false;
+        sw.max_events = 60;
+        sw.unsaved_closes = sw.unsaved_closes && sched.chance(1, 3);
     }
     let cfg = c15_gen_cfg(&mut wl);
     let mut programs = vec![gen::generate(&mut wl, &cfg)];
@@ -525,8 +539,21 @@ pub fn plan(seed: u64, prop: &str, run: u64, semantic: bool) -> Plan {
         let at_target = tgt.files.iter().all(|(p, t)| b.effective(p) == Some(t));
         if at_target {
             reached.insert(b.events.len(), ti);
+            if let (true, Some((pi, l))) = (semantic, tgt.program.as_ref()) {
+                let mods = gen::render(&programs[*pi], l);
+                let mut r = Rng::from_u64(crate::prng::mix_u64(l.seed, ti as u64));
+                sem_targets.push(crate::sem::build_target(&programs[*pi], &mods, &mut r));
+                // sometimes quiesce first, sometimes let the first request meet a stale server
+                if b.sched.chance(1, 2) {
+                    b.events.push(Ev::Idle);
+                }
+                b.events.push(Ev::Sem {
+                    target: sem_targets.len() - 1,
+                    mode: if sem == Sem::C17 { "C17".into() } else { "C18".into() },
+                });
+            }
         }
-        if b.sched.chance(2, 3) || at_target && semantic {
+        if b.sched.chance(2, 3) {
             b.events.push(Ev::Checkpoint);
         }
     }
@@ -541,6 +568,7 @@ pub fn plan(seed: u64, prop: &str, run: u64, semantic: bool) -> Plan {
             disk,
             hash_seed: env.next_u64(),
             events,
+            sem: sem_targets,
         },
         programs,
         targets,
